@@ -76,23 +76,32 @@ LabelValid(d, lab)  == IF d THEN TCD!ValidLabel(lab[1], lab[2], lab[3], lab[4]) 
 FramesLabel(d, k)   == IF d THEN TCD!FromFrames(k) ELSE TCN!FromFrames(k)
 
 -----------------------------------------------------------------------------
-(* Memories *)
+(* Memories: partial functions from <<row, column>> (15 x 32) to cells; a position outside the domain is an
+   empty (transparent) cell.                                                                          *)
 Rows == 1..15
 Cols == 1..32
-Empty    == [ch |-> 0, col |-> "white", it |-> FALSE, ul |-> FALSE]
-EmptyRow == [c \in Cols |-> Empty]
-EmptyMem == [r \in Rows |-> EmptyRow]
+EmptyMem == [p \in {} |-> 0]
 MkCell(ch, p) == [ch |-> ch, col |-> p.col, it |-> p.it, ul |-> p.ul]
 DefaultPen == [col |-> "white", it |-> FALSE, ul |-> FALSE]
 ExtMark == 100000                       \* an extended character is stored as ExtMark + stripped word value
 Adv(c) == IF c < 32 THEN c + 1 ELSE 32
 
-RowCells(row) == SelectSeq([c \in Cols |-> row[c]], LAMBDA x : x.ch # 0)
-NonEmptyRows(mem) == {r \in Rows : \E c \in Cols : mem[r][c].ch # 0}
+Put(mem, r, c, cell) == [p \in DOMAIN mem \cup {<<r, c>>} |-> IF p = <<r, c>> THEN cell ELSE mem[p]]
+Erase(mem, S)        == [p \in DOMAIN mem \ S |-> mem[p]]
+\* the rows in `rs` move by `delta` rows, every other row of `within` is erased, rows outside `within` stay
+Shift(mem, rs, delta, within) ==
+  [p \in {<<q[1] + delta, q[2]>> : q \in {x \in DOMAIN mem : x[1] \in rs}} \cup {x \in DOMAIN mem : x[1] \notin within}
+     |-> IF p[1] \in within THEN mem[<<p[1] - delta, p[2]>>] ELSE mem[p]]
+
+NonEmptyRows(mem) == {p[1] : p \in DOMAIN mem}
+RowCells(mem, r) ==
+  LET idx == SelectSeq([c \in Cols |-> c], LAMBDA c : <<r, c>> \in DOMAIN mem)
+  IN  [j \in 1..Len(idx) |-> mem[<<r, idx[j]>>]]
 RECURSIVE RowsFrom(_, _)
 RowsFrom(mem, r) == IF r > 15 THEN <<>>
-                    ELSE IF \E c \in Cols : mem[r][c].ch # 0 THEN <<[row |-> r, cells |-> RowCells(mem[r])]>> \o RowsFrom(mem, r + 1)
+                    ELSE IF r \in NonEmptyRows(mem) THEN <<[row |-> r, cells |-> RowCells(mem, r)]>> \o RowsFrom(mem, r + 1)
                     ELSE RowsFrom(mem, r + 1)
+\* the observation: non-empty rows in row order, each with its non-empty cells in column order
 Screen(mem) == RowsFrom(mem, 1)
 
 \* the memory text is written to in the current mode
@@ -114,9 +123,9 @@ Null ==
 WriteChars(chs) ==
   LET r  == cur[1]
       c0 == cur[2]
-      m1 == [Writing EXCEPT ![r][c0] = MkCell(chs[1], pen)]
+      m1 == Put(Writing, r, c0, MkCell(chs[1], pen))
       c1 == Adv(c0)
-      m2 == IF Len(chs) = 2 THEN [m1 EXCEPT ![r][c1] = MkCell(chs[2], pen)] ELSE m1
+      m2 == IF Len(chs) = 2 THEN Put(m1, r, c1, MkCell(chs[2], pen)) ELSE m1
       c2x == IF Len(chs) = 2 THEN Adv(c1) ELSE c1
   IN  /\ SetWriting(m2) /\ cur' = <<r, c2x>>
 
@@ -139,8 +148,7 @@ Pac(w, row, b2) ==
      ELSE IF mode = "rollup"
      THEN LET nb == IF row < depth THEN depth ELSE row IN
           /\ base' = nb
-          /\ disp' = IF nb = base THEN disp
-                     ELSE [r \in Rows |-> IF r \in Window(nb, depth) THEN disp[r - nb + base] ELSE EmptyRow]
+          /\ disp' = IF nb = base THEN disp ELSE Shift(disp, Window(base, depth), nb - base, Rows)
           /\ ndisp' = ndisp /\ cur' = <<nb, col>> /\ pen' = np
      ELSE /\ cur' = <<row, col>> /\ pen' = np /\ UNCHANGED <<disp, ndisp, base>>
   /\ UNCHANGED <<mode, depth>>
@@ -150,7 +158,7 @@ MidRow(w, b2) ==
   /\ IF mode = "none" THEN UNCHANGED <<disp, ndisp, cur, pen>>
      ELSE LET np == IF MidItalic(b2) THEN [col |-> pen.col, it |-> TRUE, ul |-> MidUnderline(b2)]
                     ELSE [col |-> MidColour(b2), it |-> FALSE, ul |-> MidUnderline(b2)]
-          IN  /\ SetWriting([Writing EXCEPT ![cur[1]][cur[2]] = MkCell(32, np)])
+          IN  /\ SetWriting(Put(Writing, cur[1], cur[2], MkCell(32, np)))
               /\ cur' = <<cur[1], Adv(cur[2])>> /\ pen' = np
   /\ UNCHANGED <<mode, depth, base>>
 
@@ -162,15 +170,14 @@ RU(w, k) ==
   /\ IF mode = "rollup"
      THEN LET nb == IF base < k THEN k ELSE base IN
           /\ base' = nb /\ cur' = <<nb, cur[2]>>
-          /\ disp' = [r \in Rows |-> IF r \in Window(nb, k) THEN disp[r] ELSE EmptyRow]
+          /\ disp' = Erase(disp, {x \in DOMAIN disp : x[1] \notin Window(nb, k)})
           /\ UNCHANGED <<ndisp, pen>>
      ELSE /\ disp' = EmptyMem /\ ndisp' = EmptyMem /\ base' = 15 /\ cur' = <<15, 1>> /\ pen' = DefaultPen
 
 CR(w) ==
   /\ Code(w)
   /\ IF mode = "rollup"
-     THEN /\ disp' = [r \in Rows |-> IF r \in Window(base - 1, depth - 1) THEN disp[r + 1]
-                                     ELSE IF r = base THEN EmptyRow ELSE disp[r]]
+     THEN /\ disp' = Shift(disp, Window(base, depth - 1), -1, Window(base, depth))
           /\ cur' = <<base, 1>> /\ ndisp' = ndisp
      ELSE UNCHANGED <<disp, ndisp, cur>>                 \* CR has no effect in pop-on and paint-on
   /\ UNCHANGED <<mode, depth, base, pen>>
@@ -182,7 +189,7 @@ ENM(w) == Code(w) /\ ndisp' = EmptyMem /\ UNCHANGED <<mode, depth, base, disp, c
 BS(w) ==
   /\ Code(w)
   /\ IF mode # "none" /\ cur[2] > 1
-     THEN /\ SetWriting([Writing EXCEPT ![cur[1]][cur[2] - 1] = Empty]) /\ cur' = <<cur[1], cur[2] - 1>>
+     THEN /\ SetWriting(Erase(Writing, {<<cur[1], cur[2] - 1>>})) /\ cur' = <<cur[1], cur[2] - 1>>
      ELSE UNCHANGED <<disp, ndisp, cur>>
   /\ UNCHANGED <<mode, depth, base, pen>>
 
@@ -194,7 +201,7 @@ TO(w, k) ==
 DER(w) ==
   /\ Code(w)
   /\ IF mode = "none" THEN UNCHANGED <<disp, ndisp>>
-     ELSE SetWriting([Writing EXCEPT ![cur[1]] = [c \in Cols |-> IF c >= cur[2] THEN Empty ELSE Writing[cur[1]][c]]])
+     ELSE SetWriting(Erase(Writing, {<<cur[1], c>> : c \in cur[2]..32}))
   /\ UNCHANGED <<mode, depth, base, cur, pen>>
 
 Special(w, b2) ==
@@ -207,7 +214,7 @@ Extended(w) ==
   /\ Code(w)
   /\ IF mode = "none" THEN UNCHANGED <<disp, ndisp, cur>>
      ELSE LET c0 == IF cur[2] > 1 THEN cur[2] - 1 ELSE 1 IN
-          /\ SetWriting([Writing EXCEPT ![cur[1]][c0] = MkCell(ExtMark + Strip(w), pen)])
+          /\ SetWriting(Put(Writing, cur[1], c0, MkCell(ExtMark + Strip(w), pen)))
           /\ cur' = <<cur[1], Adv(c0)>>
   /\ UNCHANGED <<mode, depth, base, pen>>
 
